@@ -3,6 +3,7 @@ package main
 import (
 	"fmt"
 	"go/ast"
+	"go/constant"
 	"go/token"
 	"go/types"
 	"sort"
@@ -424,68 +425,217 @@ func ruleShortCircuit(c *Ctx, r *Report, rule string) {
 }
 
 func ruleFalsey(c *Ctx, r *Report, rule string, spec *langSpec) {
-	r.rule(rule, 5, "isFalsey is exactly: bool -> !x, int -> x == 0, float64 -> x == 0, string -> x == \"\", anything else -> x == nil")
+	r.rule(rule, 5, "isFalsey, interpreted once per dynamic type of its argument: bool -> !x, int -> x == 0, float64 -> x == 0, string -> x == \"\", nil -> true, anything else (a block) -> false — however the type dispatch is written")
 	_, fd := c.find("isFalsey")
 	if fd == nil {
 		r.bad(rule, "isFalsey", "function not found", "")
 		return
 	}
 	r.fn("isFalsey")
-	var ts *ast.TypeSwitchStmt
-	for _, s := range fd.Body.List {
-		if t, ok := s.(*ast.TypeSwitchStmt); ok {
-			ts = t
-		}
+	type dyn struct {
+		name string
+		t    types.Type
 	}
-	if ts == nil || len(fd.Body.List) != 1 {
-		r.undecided(rule, "isFalsey", "expected a single type switch over the value", c.pos(fd.Pos()))
-		return
+	blockT := types.Type(nil)
+	if nt := namedType(c.Bcl, "Block"); nt != nil {
+		blockT = nt
 	}
-	seen := map[string]bool{}
-	for _, cl := range ts.Body.List {
-		cc := cl.(*ast.CaseClause)
-		var names []string
-		if cc.List == nil {
-			names = []string{"default"}
-		}
-		for _, e := range cc.List {
-			names = append(names, types.TypeString(c.typeOf(e), nil))
-		}
-		got := "?"
-		if len(cc.Body) == 1 {
-			if rs, ok := cc.Body[0].(*ast.ReturnStmt); ok && len(rs.Results) == 1 {
-				switch e := stripParens(rs.Results[0]).(type) {
-				case *ast.UnaryExpr:
-					if e.Op == token.NOT {
-						if _, isID := stripParens(e.X).(*ast.Ident); isID {
-							got = "false"
+	dyns := []dyn{{"bool", types.Typ[types.Bool]}, {"int", types.Typ[types.Int]}, {"float64", types.Typ[types.Float64]}, {"string", types.Typ[types.String]}, {"nil", types.Typ[types.UntypedNil]}, {"block", blockT}}
+	got := map[string]string{}
+	for _, d := range dyns {
+		d := d
+		var h Hooks
+		isVal := func(v Value) bool { return v.K == vTag && v.Tag == "val" }
+		h.Inline = func(fn *types.Func) bool { return fn.Pkg() != nil && fn.Pkg().Path() == bclPath }
+		h.TypeCase = func(in *Interp, st *State, s *ast.TypeSwitchStmt, cc *ast.CaseClause, x Value, ts []types.Type) (Value, bool) {
+			if !isVal(x) {
+				return x, true
+			}
+			listed := func(list []ast.Expr) bool {
+				for _, e := range list {
+					t := c.typeOf(e)
+					if d.name == "nil" {
+						if isNilIdent(e) {
+							return true
 						}
+						continue
 					}
-				case *ast.BinaryExpr:
-					if e.Op == token.EQL {
-						if _, isID := stripParens(e.X).(*ast.Ident); isID {
-							if id, isNil := stripParens(e.Y).(*ast.Ident); isNil && id.Name == "nil" {
-								got = "nil"
-							} else if v := c.constOf(e.Y); v != nil {
-								got = v.ExactString()
-							}
-						}
+					if t != nil && d.t != nil && types.Identical(t, d.t) {
+						return true
 					}
 				}
+				return false
 			}
+			if cc != nil && cc.List != nil {
+				return x, listed(cc.List)
+			}
+			// default / no clause: taken when no clause lists the type
+			for _, cl := range s.Body.List {
+				if listed(cl.(*ast.CaseClause).List) {
+					return x, false
+				}
+			}
+			return x, true
 		}
-		for _, n := range names {
-			seen[n] = true
-			want, ok := spec.Falsey[n]
-			r.check(ok && want == got, rule, n, "falsey value "+got, fmt.Sprintf("for %s the falsey value is %s; documented: %s", n, got, want), c.pos(cc.Pos()))
+		h.BinOp = func(l Value, op token.Token, rv Value) (Value, bool) {
+			if op == token.NOT && isVal(l) {
+				return tagV("res", "!x"), true
+			}
+			if op != token.EQL && op != token.NEQ {
+				return Value{}, false
+			}
+			if isVal(rv) {
+				l, rv = rv, l
+			}
+			if !isVal(l) {
+				return Value{}, false
+			}
+			neg := ""
+			if op == token.NEQ {
+				neg = "!"
+			}
+			switch {
+			case rv.K == vTag && rv.Tag == "nil":
+				return constV(constant.MakeBool((d.name == "nil") == (op == token.EQL))), true
+			case rv.K == vConst:
+				return tagV("res", neg+"x == "+rv.C.ExactString()), true
+			}
+			return Value{}, false
+		}
+		// comma-ok assertions x.(T)
+		h.DecideV = func(in *Interp, st *State, cond ast.Expr, v Value) tri {
+			if v.K == vTag && v.Tag == "typeok" {
+				tt := v.Data.(typeTest)
+				if isVal(tt.X) && tt.T != nil && d.t != nil {
+					if d.name != "nil" && types.Identical(tt.T, d.t) {
+						return triTrue
+					}
+					return triFalse
+				}
+			}
+			return triUnknown
+		}
+		in := newInterp(c, h)
+		st := &State{Env: map[types.Object]Value{}}
+		res := in.inlineBody(st, fd.Type, fd.Body, fd.Recv, []Value{tagV("val", d.name)})
+		var outs []string
+		for _, vs := range res {
+			outs = append(outs, vs.v.String())
+		}
+		outs = dedupe(outs)
+		sort.Strings(outs)
+		got[d.name] = strings.Join(outs, " | ")
+		if len(in.Undecided) > 0 {
+			got[d.name] += " (undecided: " + strings.Join(in.Undecided, "; ") + ")"
 		}
 	}
-	for n := range spec.Falsey {
-		if !seen[n] {
-			r.bad(rule, n, "no case for "+n+" in isFalsey", c.pos(fd.Pos()))
+	want := map[string]string{
+		"bool":    "res(!x)",
+		"int":     "res(x == " + spec.Falsey["int"] + ")",
+		"float64": "res(x == " + spec.Falsey["float64"] + ")",
+		"string":  "res(x == " + spec.Falsey["string"] + ")",
+		"nil":     "true",
+		"block":   "false",
+	}
+	if spec.Falsey["bool"] != "false" || spec.Falsey["default"] != "nil" {
+		r.bad(rule, "spec", "spec/language.json: the falsey table is not the documented one", "")
+	}
+	for _, d := range dyns {
+		key := d.name
+		if key == "nil" || key == "block" {
+			key = "default/" + key
 		}
+		g := got[d.name]
+		// float zero may be spelled 0 or 0.0
+		ok := g == want[d.name] || (d.name == "float64" && (g == "res(x == 0)" || g == "res(x == 0.0)"))
+		r.check(ok, rule, key, "isFalsey("+d.name+") = "+g, fmt.Sprintf("for a %s argument isFalsey gives %s; documented: %s", d.name, g, want[d.name]), c.pos(fd.Pos()))
 	}
 }
+
+// dynTypeCase gives a TypeCase hook and a comma-ok decision for a run in which the tagged value ("val") has the
+// dynamic type named dyn ("nil" for the nil interface).
+func (c *Ctx) dynTypeCase(dyn string, dt types.Type) (func(in *Interp, st *State, s *ast.TypeSwitchStmt, cc *ast.CaseClause, x Value, ts []types.Type) (Value, bool), func(in *Interp, st *State, cond ast.Expr, v Value) tri) {
+	isVal := func(v Value) bool { return v.K == vTag && v.Tag == "val" }
+	listed := func(list []ast.Expr) bool {
+		for _, e := range list {
+			if dyn == "nil" {
+				if isNilIdent(e) {
+					return true
+				}
+				continue
+			}
+			if t := c.typeOf(e); t != nil && dt != nil && types.Identical(t, dt) {
+				return true
+			}
+		}
+		return false
+	}
+	tc := func(in *Interp, st *State, s *ast.TypeSwitchStmt, cc *ast.CaseClause, x Value, ts []types.Type) (Value, bool) {
+		if !isVal(x) {
+			return x, true
+		}
+		if cc != nil && cc.List != nil {
+			return x, listed(cc.List)
+		}
+		for _, cl := range s.Body.List {
+			if listed(cl.(*ast.CaseClause).List) {
+				return x, false
+			}
+		}
+		return x, true
+	}
+	dv := func(in *Interp, st *State, cond ast.Expr, v Value) tri {
+		if v.K == vTag && v.Tag == "typeok" {
+			tt := v.Data.(typeTest)
+			if isVal(tt.X) && tt.T != nil && dt != nil {
+				if dyn != "nil" && types.Identical(tt.T, dt) {
+					return triTrue
+				}
+				return triFalse
+			}
+		}
+		return triUnknown
+	}
+	return tc, dv
+}
+
+// encodeStores interprets an encoder func(p []byte, v value) int with v of the given dynamic type and gives, per
+// path, the constants stored at constant indexes of p ("i=v").
+func (c *Ctx) encodeStores(enc *ast.FuncDecl, dyn string, dt types.Type) (paths [][]string, undecided []string) {
+	var h Hooks
+	h.TypeCase, h.DecideV = c.dynTypeCase(dyn, dt)
+	h.Inline = func(fn *types.Func) bool { return false }
+	pObj := c.paramObj(enc, 0)
+	type storePay struct{ stores []string }
+	h.Store = func(in *Interp, st *State, lhs ast.Expr, op token.Token, v Value) bool {
+		ix, ok := lhs.(*ast.IndexExpr)
+		if !ok || !c.isObj(ix.X, pObj) || op != token.ASSIGN {
+			return false
+		}
+		k, isK := c.intConst(ix.Index)
+		if !isK {
+			return false
+		}
+		val := "?"
+		if v.K == vConst {
+			val = v.C.ExactString()
+		}
+		sp := st.P.(*strsPay)
+		sp.items = append(sp.items, fmt.Sprintf("%d=%s", k, val))
+		return true
+	}
+	in := newInterp(c, h)
+	st := &State{Env: map[types.Object]Value{}, P: &strsPay{}}
+	res := in.inlineBody(st, enc.Type, enc.Body, enc.Recv, []Value{unknownV(), tagV("val", dyn)})
+	for _, vs := range res {
+		paths = append(paths, vs.st.P.(*strsPay).items)
+	}
+	return paths, in.Undecided
+}
+
+type strsPay struct{ items []string }
+
+func (p *strsPay) Clone() Payload { return &strsPay{append([]string(nil), p.items...)} }
 
 func ruleLiterals(c *Ctx, r *Report, rule string, spec *langSpec) {
 	r.rule(rule, 6, "int literals are converted by strconv.ParseInt(text, 0, 0|64) (base 0: decimal, hex, leading-zero octal), floats by ParseFloat(text, 64), strings by strconv.Unquote; the converted value is what is compiled; 0 and 1 use ZERO/ONE")
